@@ -149,6 +149,7 @@ int main(int argc, char** argv) {
         World w = build(cw, true);
         size_t N = (size_t)c.nb * c.n * c.n;
         if (in.has("data")) { auto v = in.fv("data"); for (size_t i = 0; i < v.size() && i < N; i++) (*w.in)->getData()[i] = v[i]; }
+        if (in.has("out_fill")) { float v = (float)in.d("out_fill"); for (size_t i = 0; i < N; i++) (*w.out)->getData()[i] = v; }      // what the target grid holds before the step
         FILE* fo = fopen(argv[3], "w");
         std::string what = in.kv["what"].empty() ? "" : in.kv["what"][0];
         auto it = static_cast<SourceMap::InterpolationType>(c.it);
